@@ -22,6 +22,7 @@
 EXTENDS IRSolver, TraceLib, Json, IOUtils
 
 TF == INSTANCE Transform
+Pub == INSTANCE IRPublic
 
 VARIABLES l, mon, cov, cx
 
@@ -45,7 +46,7 @@ CovKeys == {"runs", "events", "computes", "returns", "notconv_with_flags", "succ
             "second_compute", "breakdown_steps", "restarts", "double_shifts", "single_shifts",
             "faults", "init_throw", "compute_throw", "pairs_judged", "conv_judged", "fac_judged",
             "digest_compared", "opprobe_compared", "obs", "expand_basis", "gen_runs", "herm_runs",
-            "fresh_objects", "sorted_checked", "prefix_checked", "known_family_runs", "sel_judged", "sel_skipped_history", "sel_skipped_ambiguous", "sel_not_successful"}
+            "fresh_objects", "pub_calls", "pub_rejected", "pub_faulted", "sorted_checked", "prefix_checked", "known_family_runs", "sel_judged", "sel_skipped_history", "sel_skipped_ambiguous", "sel_not_successful"}
 
 Bump(c, key, by) == [c EXCEPT ![key] = @ + by]
 
@@ -70,7 +71,7 @@ InvHits(st) ==
 InfoName(i) == CASE i = 0 -> "Successful" [] i = 1 -> "NotComputed" [] i = 2 -> "NotConverging" [] OTHER -> "NumericalIssue"
 
 NoCall == [f |-> "none", aid |-> -1, sv |-> -1, sel |-> 0, maxit |-> 0, sort |-> 0, qtol |-> 0, state |-> "none",
-           cend |-> <<>>]
+           cend |-> <<>>, x |-> ""]
 
 FreshCx(e, run) ==
     [run |-> run, id |-> e.id, n |-> e.n, nev |-> e.nev, ncv |-> e.ncv, ty |-> e.ty, gen |-> (e.cls \in {"gen", "genrs", "gencs"}),
@@ -85,7 +86,9 @@ FreshCx(e, run) ==
      armed |-> 0,        \* C14: fault armed at this relative index (0 = none)
      nfault |-> 0,       \* C14: Threw(fault) lines seen
      prevdesc |-> "",
-     lastObs |-> <<>>]
+     lastObs |-> <<>>,
+     pub |-> Pub!PFresh(e.nev, e.ncv),   \* IRPublic.tla: the public state, tracked from the harness lines alone
+     started |-> 0]                      \* compute() calls started on the current object
 
 \* ------------------------------------------------------------------------------------------
 \* Each event yields [s |-> new solver state, h |-> hits, cx |-> new context]
@@ -146,14 +149,15 @@ EvComputeEnd(e) ==
 \* ---- harness lines -----------------------------------------------------------------------
 EvCall(e) ==
     CASE e.f = "new" ->
-           Res(Fresh(Cfg), {}, [cx EXCEPT !.call = [NoCall EXCEPT !.f = "new", !.state = "called"], !.ncomp = 0, !.sinceInit = -1, !.lastsv = -1])
+           Res(Fresh(Cfg), {}, [cx EXCEPT !.call = [NoCall EXCEPT !.f = "new", !.state = "called"], !.ncomp = 0, !.sinceInit = -1, !.lastsv = -1,
+                                    !.pub = Pub!PFresh(cx.nev, cx.ncv), !.started = 0])
       [] e.f = "init" ->
            Res(s, If(s.pc = "idle", "G:CallInit"), [cx EXCEPT !.call = [NoCall EXCEPT !.f = "init", !.sv = e.a, !.state = "called"]])
       [] e.f = "compute" ->
            Res(s, If(s.pc = "idle", "G:CallCompute"),
                [cx EXCEPT !.call = [f |-> "compute", aid |-> e.a, sv |-> e.b, sel |-> e.sel, maxit |-> e.maxit, sort |-> e.sort,
-                                    qtol |-> e.qtol, state |-> "called", cend |-> <<>>],
-                          !.ncomp = @ + 1])
+                                    qtol |-> e.qtol, state |-> "called", cend |-> <<>>, x |-> ""],
+                          !.ncomp = @ + 1, !.started = @ + 1])
       [] OTHER -> Res(s, {Hit("UnknownCall")}, cx)
 
 EvRet(e) ==
@@ -171,7 +175,7 @@ EvRet(e) ==
 EvThrew(e) ==
     \* a compute() that threw has run too (possibly to convergence, if it was the final sort that rejected the sorting rule): the
     \* next compute() is NOT "the compute() that directly follows init()" of C06/C14
-    LET ncx == [cx EXCEPT !.call.state = "threw", !.sinceInit = IF e.f = "init" THEN -1 ELSE IF e.f = "compute" /\ @ >= 0 THEN @ + 1 ELSE @,
+    LET ncx == [cx EXCEPT !.call.state = "threw", !.call.x = e.x, !.sinceInit = IF e.f = "init" THEN -1 ELSE IF e.f = "compute" /\ @ >= 0 THEN @ + 1 ELSE @,
                           !.nfault = IF e.x = "fault" THEN @ + 1 ELSE @,
                           !.armed = IF e.x = "fault" THEN 0 ELSE @]
     IN
@@ -207,6 +211,36 @@ PrefixOK(e) ==
 
 SameDig(a, b) == a[1] = b[1] /\ a[2] = b[2] /\ a[3] = b[3]
 
+\* ---- IRPublic.tla: every observed public call is one PubStep of the public state --------------------------
+\* Only harness lines are used (Call / Ret / Threw / Obs): this judgement does not depend on any hook event.
+SelRuleOK(rule) == IF cx.gen THEN rule \in {0, 1, 2, 4, 5, 6} ELSE rule \in {0, 3, 4, 7, 8}
+PubKind == IF cx.call.f = "init" THEN (IF cx.call.sv = 99 THEN "zero" ELSE "ok")
+           ELSE IF ~SelRuleOK(cx.call.sel) THEN "badsel"
+           ELSE IF ~(IF cx.gen THEN cx.call.sort \in {0, 1, 2, 4, 5, 6} ELSE cx.call.sort \in {0, 3, 4, 7}) THEN "badsort" ELSE "ok"
+PubHow == IF cx.call.state = "ret" THEN "ret"
+          ELSE IF cx.call.x = "fault" THEN "fault" ELSE IF cx.call.x = "invalid_argument" THEN "invalid" ELSE "other"
+\* the public state after the call: accessor values as observed, the hidden part (k, fac, inited, ncomp) as IRPublic determines it
+\* from the way the call ended
+PubAfter(e) ==
+    LET p == cx.pub how == PubHow f == cx.call.f
+        obsd == [p EXCEPT !.count = e.nval, !.info = InfoName(e.info), !.niter = e.niter, !.ops = e.nops,
+                          !.exc = CASE how = "ret" -> "none" [] how = "invalid" -> "invalid" [] OTHER -> "fault"]
+    IN CASE f = "init" /\ how = "ret" -> [obsd EXCEPT !.k = 1, !.fac = "ok", !.inited = TRUE, !.ncomp = 0]
+         [] f = "init" /\ how = "invalid" -> [obsd EXCEPT !.inited = FALSE, !.ncomp = 0]
+         [] f = "init" -> [obsd EXCEPT !.inited = FALSE, !.ncomp = 0, !.fac = IF p.k = 0 THEN "none" ELSE "bad"]
+         [] f = "compute" /\ p.fac = "none" -> [obsd EXCEPT !.ncomp = @ + 1]
+         [] f = "compute" /\ how \in {"ret", "invalid"} -> [obsd EXCEPT !.k = p.ncv, !.ncomp = @ + 1]
+         [] OTHER -> [obsd EXCEPT !.fac = "bad", !.inited = FALSE, !.ncomp = @ + 1]
+PubHits(e) ==
+    IF e.after \notin {"init", "compute"} \/ cx.call.f \notin {"init", "compute"} THEN {}
+    ELSE LET q == PubAfter(e) IN
+         (IF PubHow = "other" THEN {}
+          ELSE If(Pub!PubStep(cx.pub, cx.call.f, PubKind, cx.call.maxit, PubHow, q),
+                  IF cx.call.f = "init" THEN "PubInit" ELSE "PubCompute"))
+         \cup If(Pub!PTypeOK(q), "PubI:TypeOK") \cup If(Pub!PStatusIffAll(q), "PubI:StatusIffAll")
+         \cup If(Pub!PInitMakesFresh(q), "PubI:InitMakesFresh")
+         \cup If(Pub!PNotComputedBefore(q, cx.started), "PubI:NotComputedBefore")
+
 EvObs(e) ==
     LET after == e.after
         okret == cx.call.state = "ret"
@@ -229,8 +263,9 @@ EvObs(e) ==
         same == {j \in 1 .. Len(cx.digs) : cx.digs[j].sv = cx.lastsv /\ cx.digs[j].aid = cx.call.aid}
         c06 == IF keyed /\ same # {} THEN If(\A j \in same : SameDig(cx.digs[j].dg, e.dg), "SameKeySameDigest") ELSE {}
         ndigs == IF keyed /\ same = {} THEN Append(cx.digs, [sv |-> cx.lastsv, aid |-> cx.call.aid, dg |-> e.dg]) ELSE cx.digs
-    IN Res(s, always \cup before \cup comp \cup c06 \cup If(e.ft = cx.nfault, "FaultCountMatches"),
-           [cx EXCEPT !.digs = ndigs, !.lastObs = <<e.nval, e.info>>])
+    IN Res(s, always \cup before \cup comp \cup c06 \cup If(e.ft = cx.nfault, "FaultCountMatches") \cup PubHits(e),
+           [cx EXCEPT !.digs = ndigs, !.lastObs = <<e.nval, e.info>>,
+                      !.pub = IF e.after \in {"init", "compute"} /\ cx.call.f \in {"init", "compute"} THEN PubAfter(e) ELSE @])
 
 \* ---- measurement lines ---------------------------------------------------------------------
 Idx(seq) == 1 .. Len(seq)
@@ -379,7 +414,9 @@ CovOf(e, r) ==
                 [] e.e = "MConv" -> Bump(c0, "conv_judged", Len(e.qres))
                 [] e.e = "MFac" -> Bump(c0, "fac_judged", 1)
                 [] e.e = "OpProbe" -> Bump(c0, "opprobe_compared", IF cx.opdg = -1 THEN 0 ELSE 1)
-                [] e.e = "Obs" -> Bump(Bump(Bump(Bump(c0, "obs", 1), "digest_compared", IF Len(r.cx.digs) = Len(cx.digs) /\ e.after = "compute" /\ cx.call.state = "ret" /\ cx.sinceInit = 1 THEN 1 ELSE 0),
+                [] e.e = "Obs" -> Bump(Bump(Bump(Bump(Bump(Bump(Bump(c0, "pub_calls", IF e.after \in {"init", "compute"} THEN 1 ELSE 0),
+                                        "pub_rejected", IF e.after \in {"init", "compute"} /\ cx.call.state = "threw" /\ cx.call.x = "invalid_argument" THEN 1 ELSE 0),
+                                        "pub_faulted", IF e.after \in {"init", "compute"} /\ cx.call.state = "threw" /\ cx.call.x = "fault" THEN 1 ELSE 0), "obs", 1), "digest_compared", IF Len(r.cx.digs) = Len(cx.digs) /\ e.after = "compute" /\ cx.call.state = "ret" /\ cx.sinceInit = 1 THEN 1 ELSE 0),
                                             "sorted_checked", IF e.after = "compute" /\ cx.call.state = "ret" /\ e.nval > 1 THEN 1 ELSE 0),
                                        "prefix_checked", Len(e.cdm))
                 [] e.e = "ExpandBasis" -> Bump(c0, "expand_basis", 1)
